@@ -271,19 +271,21 @@ func checkC15(w *World) {
 
 // adapterError: the decoder's error is returned with a nil node under err != nil.
 func (w *World) adapterError(P, rule string, pull *ssa.Function, method string) {
-	var tokenCall *ssa.Call
-	allInstrs(pull, func(in ssa.Instruction) {
-		if c, ok := in.(*ssa.Call); ok && staticCallee(c) != nil && strings.HasSuffix(funcFullName(staticCallee(c)), "."+method) {
-			tokenCall = c
-		}
-	})
+	tokenCall, isHelper := w.tokenSource(pull, method, 0)
 	if tokenCall == nil {
 		w.undecided(P, rule, "decoder error in "+pull.String(), pull.Pos(), "no decoder call")
 		return
 	}
+	if isHelper {
+		// the token comes through a helper of the adapter: the helper itself has to hand the decoder's error on
+		h := staticCallee(tokenCall)
+		_, hRet, hOrder, _ := w.errPropagation(h, method, 1)
+		w.check(P, rule, "decoder error in "+h.String(), h.Pos(), hRet && hOrder, fmt.Sprintf("the token helper returns the decoder's error unchanged when it is not nil: %v; returns a token only with a nil error: %v", hRet, hOrder))
+	}
+	errIdx := staticCallee(tokenCall).Signature.Results().Len() - 1
 	var errV ssa.Value
 	for _, rr := range referrers(tokenCall) {
-		if ex, ok := rr.(*ssa.Extract); ok && ex.Index == 1 {
+		if ex, ok := rr.(*ssa.Extract); ok && ex.Index == errIdx {
 			errV = ex
 		}
 	}
